@@ -62,6 +62,7 @@ THEOREMS = {
         "Shroud.Names.expand_c_names_eq",
         "Shroud.Names.expand_f_names_eq",
         "Shroud.Names.expand_c_names_distinct",
+        "Shroud.Names.clone_name_ne_parent",
         "Shroud.Names.expand_fortran_names_distinct",
         "Shroud.Names.expand_f_names_nodup",
         "Shroud.Names.expand_mem",
@@ -91,13 +92,14 @@ NATIVE = ["int", "long", "float", "double"]
 
 # ------------------------------------------------------------------ descriptions
 def mkfn(name, nparams=1, ndefaults=0, suffix=None, dsuffix=(), tinst=(), generics=(), hasBuf=False, isCtor=False,
-         usesT=False, block=None, cpp_if=None, wrap=None):
+         usesT=False, block=None, cpp_if=None, wrap=None, cfi=False):
     # fortran_generic on a function whose C prototype "order" differs from the generic's (no required parameter,
     # or a second template parameter) makes generic_function add a fortran_generic_c variant: not modelled.
     if nparams - ndefaults == 0 or any(len(t["types"]) > 1 for t in tinst):
         generics = ()
     return dict(name=name, nparams=nparams, ndefaults=ndefaults, suffix=suffix, dsuffix=list(dsuffix),
-                tinst=[dict(t) for t in tinst], generics=list(generics), hasBuf=hasBuf, isCtor=isCtor, usesT=usesT, block=block, cpp_if=cpp_if, wrap=wrap)
+                tinst=[dict(t) for t in tinst], generics=list(generics), hasBuf=hasBuf, isCtor=isCtor, usesT=usesT, block=block, cpp_if=cpp_if, wrap=wrap,
+                cfi=bool(cfi))
 
 
 def fn_decl(fn, ov, clsname=None):
@@ -136,6 +138,9 @@ def fn_yaml(fn, ov, clsname=None):
     if fn.get("wrap"):
         fw_ = fn["wrap"]
         d["options"] = {"wrap_c": fw_[0], "wrap_fortran": fw_[1], "wrap_python": fw_[2], "wrap_lua": fw_[3]}
+    if fn.get("cfi"):
+        # option F_CFI: the clone made for Fortran is the `_CFI` one (arg_to_CFI) instead of `_bufferify`
+        d.setdefault("options", {})["F_CFI"] = True
     if fn["suffix"] is not None:
         d["format"] = {"function_suffix": fn["suffix"]}
     if fn["dsuffix"]:
@@ -188,6 +193,7 @@ def normalize(prog):
             f.setdefault("usesT", False)
             f.setdefault("block", None)
             f.setdefault("cpp_if", None)
+            f.setdefault("cfi", False)
             f["wrap"] = tuple(f["wrap"]) if f.get("wrap") else None
     return prog
 
@@ -375,7 +381,7 @@ def enc_fn(fn):
         "+".join(common.enc(s) for s in fn["dsuffix"]) or "~", ti,
         "+".join(enc_opt(g) for g in fn["generics"]) or "~",
         "1" if fn["hasBuf"] else "0", "1" if fn["isCtor"] else "0", "1" if fn.get("usesT") else "0", enc_opt(fn.get("cpp_if")),
-        "".join("1" if b else "0" for b in fn["wrap"]) if fn.get("wrap") else "N"])
+        "".join("1" if b else "0" for b in fn["wrap"]) if fn.get("wrap") else "N", "1" if fn.get("cfi") else "0"])
 
 
 def enc_container(c):
@@ -596,6 +602,40 @@ def wrapflag_programs(thorough, r):
             yield dict(library="wfl", wrap=lw, cprefix=None, containers=conts)
 
 
+def cfi_programs(thorough, r):
+    """Entry points that get a clone for Fortran (a std::string argument) under option F_CFI: the clone is the
+    `_CFI` one instead of `_bufferify`.  Single functions, overload sets, default-argument variants, fortran_generic
+    variants, explicit suffixes, F_CFI on some overloads only, in library / namespace / flattened namespace / class
+    scope, with the wrap-flag combinations that decide whether a clone is made at all."""
+    def group(mode):
+        if mode == 0:
+            return [mkfn("measure", hasBuf=True, cfi=True), mkfn("plain"),
+                    mkfn("rename", hasBuf=True, cfi=True), mkfn("rename", nparams=2, hasBuf=True, cfi=True)]
+        if mode == 1:
+            return [mkfn("setName", nparams=3, ndefaults=2, hasBuf=True, cfi=True),
+                    mkfn("accept", hasBuf=True), mkfn("accept", nparams=2, hasBuf=True, cfi=True)]
+        if mode == 2:
+            return [mkfn("label", nparams=2, hasBuf=True, cfi=True, suffix="_txt"), mkfn("label", nparams=3, hasBuf=True, cfi=True),
+                    mkfn("scaleBy", nparams=2, hasBuf=True, cfi=True, generics=[None, "_dbl"])]
+        return [mkfn("send", nparams=2, ndefaults=1, hasBuf=True, cfi=True, dsuffix=["_short", "_long"]),
+                mkfn("noString", nparams=2, ndefaults=1, cfi=True), mkfn("send2", hasBuf=True, cfi=True)]
+    paths = [[], [("ns", "outer")], [("nsf", "flat")], [("cls", "Cls")], [("ns", "outer"), ("cls", "Mesh")]]
+    wraps = [(True, True, False, False), (False, True, False, False), (True, False, False, False), (True, True, True, False)]
+    k = 0
+    for mode in range(4):
+        for pi, path in enumerate(paths if thorough else paths[:4]):
+            k += 1
+            w = wraps[0] if (k % 3) else wraps[(k // 3) % 4]
+            fns = group(mode)
+            if k % 4 == 0:
+                # one overload keeps Fortran but drops its own C wrapper: the CFI clone is still made
+                fns[-1]["wrap"] = (False, True, False, False)
+            conts = [dict(path=path, fns=fns)]
+            if pi % 2:
+                conts.append(dict(path=[], fns=group((mode + 1) % 4)))
+            yield dict(library="cfi", wrap=w, cprefix=None, containers=conts)
+
+
 def nested_class_programs(thorough, r):
     """Classes of the same name in nested scopes (`::Cls`, `ns::Cls`, `ns::inner::Cls`; `ns::Solo`,
     `ns::inner::Solo`), declared outer-first and inner-first: each keeps its own scope prefix and files."""
@@ -737,7 +777,8 @@ def random_program(r):
                 tinst.append(dict(explicit=r.choice([None, "_third", "_0"]), types=list(tinst[0]["types"])))
             fns.append(mkfn(r.choice(names), nparams=nd + (2 if tk == 3 else 1) + r.randrange(0, 2), ndefaults=nd,
                             suffix=r.choice(SUFFIX_POOL), dsuffix=dsl, tinst=tinst,
-                            generics=[r.choice([None, None, "_g%d" % j, "_1"]) for j in range(ng)], hasBuf=hb))
+                            generics=[r.choice([None, None, "_g%d" % j, "_1"]) for j in range(ng)], hasBuf=hb,
+                            cfi=hb and r.random() < 0.35))
         if p and p[-1][0] == "cls" and r.random() < 0.7:
             for k in range(r.randrange(1, 4)):
                 fns.insert(r.randrange(0, len(fns) + 1), mkfn("ctor", nparams=k + 1, ndefaults=r.randrange(0, 2), isCtor=True,
@@ -784,6 +825,7 @@ def entries_of(fns):
     out = []
     for fn in fns:
         gs = [g if g is not None else "_%d" % j for j, g in enumerate(fn["generics"])]
+        fn = dict(fn, hasBuf=(("cfi" if fn.get("cfi") else "buf") if fn["hasBuf"] else False))
         if fn["tinst"] and fn["ndefaults"]:
             # every instantiation gets its default-argument variants, numbered per instantiation
             for i, t in enumerate(fn["tinst"]):
@@ -848,7 +890,11 @@ def documented_names(prog):
                 # the overload number counts every overload; a name exists where the language is wrapped
                 if wf[0]:
                     cnames.append(cprefix + cscope + u + sfx + ts)
-                if hb and wf[0] and wf[1]:
+                # the clone every Fortran-wrapped entry point with a string argument gets: `_bufferify` next to
+                # its C wrapper, or with option F_CFI `_CFI` (function_suffix + C_cfi_suffix), C wrapper or not
+                if hb == "cfi" and wf[1]:
+                    cnames.append(cprefix + cscope + u + sfx + "_CFI" + ts)
+                elif hb == "buf" and wf[0] and wf[1]:
                     cnames.append(cprefix + cscope + u + sfx + "_bufferify" + ts)
                 for g in ((gs or [""]) if wf[1] else []):
                     members.append((fscope + u + sfx + g + ts).lower())
@@ -913,7 +959,7 @@ def in_domain(prog):
             for (e, ts, gs, hb, templ, _cif, _fw) in entries_of(fns):
                 if e is not None:
                     expl.append(e)
-            if any(AUTO.match(e) or not TOKEN.match(e) or e == "_bufferify" for e in expl):
+            if any(AUTO.match(e) or not TOKEN.match(e) or e in ("_bufferify", "_cfi") for e in expl):
                 return False
             if any(fn["tinst"] for fn in fns):
                 continue
@@ -1070,6 +1116,11 @@ def scan_outputs(files, prefix):
             d = sorted({n for n in lst if lst.count(n) > 1})
             if d:
                 problems.append(("dup-" + kind, "Fortran %s defined more than once in %s: %s" % (kind, fn, ", ".join(d))))
+        # every bind(C) interface of a module names its own C symbol
+        targets = re.findall(r'bind\(C, name="(\w+)"\)', data.decode())
+        d = sorted({n for n in targets if targets.count(n) > 1})
+        if d:
+            problems.append(("dup-f-bind-target", "several Fortran interfaces of %s bind to one C symbol: %s" % (fn, ", ".join(d))))
         ents = procs + binds + list(ifaces.keys())
         d = sorted({n for n in ents if ents.count(n) > 1} - {n for n in procs if procs.count(n) > 1}
                    - {n for n in binds if binds.count(n) > 1})
@@ -1561,7 +1612,7 @@ def uc_strings(thorough, r):
 def distribution(progs):
     dist = {"programs": len(progs), "containers": 0, "functions": 0, "flattened_namespace": 0, "depth>=2": 0, "depth>=3": 0,
             "class_in_namespace": 0, "same_name_in_two_scopes": 0, "explicit_C_prefix": 0, "with_defaults": 0,
-            "with_template": 0, "with_generics": 0, "with_bufferify": 0, "with_ctor": 0, "overload_sets>=2": 0,
+            "with_template": 0, "with_generics": 0, "with_bufferify": 0, "with_F_CFI_clone": 0, "with_ctor": 0, "overload_sets>=2": 0,
             "explicit_suffix": 0, "modules_with>=2_classes": 0, "method_name_shared_by_classes": 0,
             "shared_method_overloaded_in_some_single_in_others": 0,
             "class_template_instantiations": 0, "members_using_template_parameter": 0,
@@ -1599,6 +1650,7 @@ def distribution(progs):
                 dist["with_template"] += bool(f["tinst"])
                 dist["with_generics"] += bool(f["generics"])
                 dist["with_bufferify"] += f["hasBuf"]
+                dist["with_F_CFI_clone"] += bool(f["hasBuf"] and f.get("cfi"))
                 dist["with_ctor"] += f["isCtor"]
                 dist["explicit_suffix"] += f["suffix"] is not None or bool(f["dsuffix"])
                 seen[f["name"]] = seen.get(f["name"], 0) + 1
@@ -1718,6 +1770,8 @@ def run(ctx):
     progs.extend(cppifs)
     wflags = list(wrapflag_programs(thorough, r)) + list(nested_class_programs(thorough, r))
     progs.extend(wflags)
+    cfis = list(cfi_programs(thorough, r))
+    progs.extend(cfis)
     nscope = len(progs) - ncorpus
     progs.extend(exhaustive_programs(thorough, r))
     nexh = len(progs) - ncorpus - nscope
@@ -1740,7 +1794,7 @@ def run(ctx):
             if a.startswith("crash"):
                 continue
             for ci, cont in enumerate(a.split("#")):
-                if "has_default_arg" in cont or "cxx_template" in cont or "fortran_generic" in cont or "arg_to_buffer" in cont:
+                if "has_default_arg" in cont or "cxx_template" in cont or "fortran_generic" in cont or "arg_to_buffer" in cont or "arg_to_cfi" in cont:
                     ctx.nontrivial("%s#%d" % (q, ci))
         if disagreements:
             ctx.tie_broken("expand-correspondence", [d for d in disagreements if d][:5])
@@ -1809,7 +1863,7 @@ def run(ctx):
     plain = [p for p in cand if not (len(p["containers"]) > 1 or p["containers"][0]["path"])]
     nfull = (300 if thorough else 22) * (3 if ctx.broken else 1)
     tmplc = [p for p in cand if any(c.get("tmpl") for c in p["containers"])]
-    tabs = [p for p in wflags if in_domain(p)] + [p for p in tables if in_domain(p)] + [p for p in cppifs if in_domain(p)][:: (1 if thorough else 2)]
+    tabs = [p for p in cfis if in_domain(p)][:: (1 if thorough else 2)] + [p for p in wflags if in_domain(p)] + [p for p in tables if in_domain(p)] + [p for p in cppifs if in_domain(p)][:: (1 if thorough else 2)]
     blk = [p for p in blocked if in_domain(p) and any(c.get("tmpl") for c in p["containers"])]
     pick = ([p for p in progs[:ncorpus] if in_domain(p)] + tmplc[:: max(1, len(tmplc) // (18 if thorough else 5))] +
             tabs[:: (1 if thorough else 2)] + blk[:: max(1, len(blk) // (12 if thorough else 4))] +
